@@ -382,11 +382,15 @@ class GraphBuilder:
                 w = gb.const(np.array([1.0, 2.0, -1.0], dtype=np.float32), as_init=True)
                 gb.add("Add", [gb.fvec(), w], [(F, V3)])
             gb.steps(self.rnd.randint(1, 2))
+            base = gb.local[-1]
             if inner and depth > 0:
+                visible = list(gb.pool)
                 io = inner(gb, depth - 1)
-                if not dead_inner:
-                    gb.add("Add", [io[0], gb.fvec()], [(F, V3)])   # the inner node's result is consumed
-            outs = [gb.add("Add", [gb.local[-1], gb.fvec()], [(F, V3)])[0]] + [gb.steps(1) for _ in range(nout - 1)]
+                if dead_inner:
+                    gb.pool = visible                              # nothing below may pick the inner node's results
+                else:
+                    base = gb.add("Add", [io[0], gb.fvec()], [(F, V3)])[0]   # the inner node's result is consumed
+            outs = [gb.add("Add", [base, gb.fvec()], [(F, V3)])[0]] + [gb.steps(1) for _ in range(nout - 1)]
             # a branch output must be produced in the branch
             outs = [gb.add("Identity", [o], [(F, V3)])[0] for o in outs]
             g = helper.make_graph(gb.nodes, self.dag.fresh(), [], [helper.make_tensor_value_info(o[0], F, list(V3)) for o in outs],
